@@ -103,7 +103,7 @@ class _TreeDist(object):
                     temp_stack.append(hash_lang[lang])
             elif elem.find(")") > -1:
                 lang = elem.replace(")", "")
-                lang = lang.split(":")[0].strip()
+                lang = lang.split(":")[0].strip().replace("'", "")
                 if lang in hash_lang:
                     temp_stack.append(hash_lang[lang])
                 else:
@@ -116,7 +116,7 @@ class _TreeDist(object):
                     p1 = partition
                     partition_list.append(p1)
             else:
-                lang = elem.split(":")[0]
+                lang = elem.split(":")[0].replace("'", "")
                 if lang in hash_lang:
                     temp_stack.append(hash_lang[lang])
                 else:
